@@ -5,6 +5,7 @@ import (
 	"encoding/json"
 	"errors"
 	"fmt"
+	"io"
 	"math/rand"
 	"strings"
 
@@ -136,9 +137,16 @@ func runW2(c *hx.Ctx, prop string, g W2Cfg, hist, expect []string, seed int64, t
 	}
 	replay := map[string]any{"cfg": g, "hist": hist, "seed": seed}
 	sink := &RecSink{}
+	// the sink is a plain io.Writer or (every other case) also an io.ByteWriter: the writers
+	// choose different output paths for the two
+	var target io.Writer = onlyWriter{sink}
+	if (seed+int64(len(hist)))%2 == 1 {
+		target = byteSink{sink}
+	}
+	replay["sinkIsByteWriter"] = (seed+int64(len(hist)))%2 == 1
 	var w *lzma.Writer2
 	var err error
-	if p := safely(func() { w, err = g.lib().NewWriter2(sink) }); p != nil || err != nil {
+	if p := safely(func() { w, err = g.lib().NewWriter2(target) }); p != nil || err != nil {
 		c.Violation(sig("new-failed"), fmt.Sprintf("NewWriter2(%v) failed: %v %v", g, err, p), replay)
 		return res
 	}
